@@ -128,6 +128,10 @@ def check_root_guard(rep: Report, prog: Program, resolver: Resolver, qual: str) 
         facts = [f for f in _guard_facts(st.test)]
         for cs in resolver.callsites(qual):
             if isinstance(cs.node, ast.Call) and any(cs.node is n for n in ast.walk(st.test)):
+                comp = _enclosing_comp(cs.node, st)
+                tvars: List[str] = []
+                if comp is not None:
+                    tvars = [x.id for x in ast.walk(comp.generators[0].target) if isinstance(x, ast.Name)]
                 for t in cs.targets:
                     callee = prog.functions[t]
                     params = callee.params()
@@ -138,7 +142,13 @@ def check_root_guard(rep: Report, prog: Program, resolver: Resolver, qual: str) 
                             sub[params[off + i]] = _norm(ast.unparse(a))
                     for k, a in cs.kwargs.items():
                         sub[k] = _norm(ast.unparse(a))
-                    facts += _guard_facts(callee.node, sub)
+                    for cont, div, flt, node in _guard_facts(callee.node, sub):
+                        if cont.startswith("scalar:") and comp is not None and cont[len("scalar:"):] in tvars:
+                            # an element-level predicate applied to every element of the comprehension
+                            g = comp.generators[0]
+                            cont = _norm(ast.unparse(g.iter))
+                            flt = flt + [_norm(ast.unparse(x)) for c in g.ifs for x in _flatten_and(c)]
+                        facts.append((cont, div, flt, node))
         if facts:
             guards.append((st, facts))
     divs = [(n, comp) for n, comp, cmp in _floor_divs(fn) if cmp is None]
